@@ -180,3 +180,10 @@ package common
 //@ func ConvertOperatorToSQL(operator string) (r string)
 //@   property C38
 //@   requires sqlOp(operator)
+
+// keyOf(p): the part of a filter key before its first "[" (strings.Split(key, "[")[0]) — the name under which
+// validateFilters looks an indexed property up in the entity schema. Trusted facts about it: a key without "[" is its own
+// name, and a string matched by an ANCHORED pattern `^name\[...` has that name. (An unanchored pattern gives no such fact.)
+//@ declare keyOf(p string) string
+//@ axiom keyOf("balance") == "balance" && keyOf("metadata") == "metadata"
+//@ axiom forall re *regexp.Regexp, p string :: {reMatch(re, p)} (pat(re) == "^balance\\[(.*)]$" && reMatch(re, p)) ==> keyOf(p) == "balance"
